@@ -228,7 +228,7 @@ func ruleShortLocks(c *Ctx, rule string) {
 			c.exception(rule, "lock "+l, "-", exc[l].reason+"; excused effects while held: "+strings.Join(excused, "; "))
 			continue
 		}
-		if l == "tunnelChannel.mu" && allPrefixed(bad, "callback in (*tunnelChannel).allocateStream") {
+		if a.Ch != nil && a.Allocate != nil && l == a.Ch.Obj().Name()+".mu" && allPrefixed(bad, "callback in "+w.Short(a.Allocate)) {
 			c.exception(rule, "lock "+l, "-", "observation O-2: the per-RPC credentials callbacks run under the channel mutex ("+strings.Join(bad, "; ")+"); they delay other RPCs only for a credentials provider that is slow or ignores its context, which is not one of the disturbers the statement lists; recorded, not a violation")
 			continue
 		}
